@@ -163,15 +163,30 @@ Print Assumptions is_thissystem_flag_and_env.
 Example xml_backend_is_foreign : backends_is_thissystem [BK false 0] false None = false /\ backends_is_thissystem [BK false 0] true None = true.
 Proof. vm_compute. auto. Qed.
 
-(* ---- x86 discovery restores the binding (against an idealised affinity model; the real kernel is observed live) ---- *)
+(* ---- x86 discovery restores the binding (against an idealised affinity model; the real kernel is observed live) ----
+   The binding that is queried, saved and restored is the calling THREAD's (x86_query_thisthread); restrict_set,
+   present with RESTRICT_TO_CPUBINDING, is the PROCESS binding and only selects which PUs are visited.  For every
+   set of allowed CPUs, every number of processors, with and without the flag, and WHATEVER the other threads of
+   the process are bound to, the calling thread ends on the affinity it started with. *)
 Theorem x86_restores_binding :
-  forall allowed restrict_set nbprocs cur,
-  bs_subset cur allowed = true -> bs_is_empty cur = false -> fst (x86_look_procs allowed restrict_set nbprocs cur) = cur.
+  forall allowed restrict_to_cpubinding nbprocs thread others,
+  bs_subset thread allowed = true -> bs_is_empty thread = false ->
+  fst (x86_look allowed restrict_to_cpubinding nbprocs thread others) = thread.
 Proof. exact x86_restores. Qed.
 Print Assumptions x86_restores_binding.
+(* why the hypothesis names the thread binding: a backend that reuses the process binding as "original"
+   leaves the calling thread on the union of all threads' bindings *)
+Theorem x86_saving_process_binding_would_not_restore :
+  exists allowed nbprocs thread others,
+  bs_subset thread allowed = true /\ bs_is_empty thread = false /\
+  fst (x86_look_saving_proc allowed nbprocs thread others) <> thread.
+Proof. exists (bs_of_N 0xffff), 16%nat, (bs_of_N 8), (bs_of_N 0xffff). vm_compute. repeat split; discriminate. Qed.
+Print Assumptions x86_saving_process_binding_would_not_restore.
 Example x86_nonvacuous :
-  x86_look_procs (bs_of_N 0xf0) None 8 (bs_of_N 0x30) = (bs_of_N 0x30, [4; 5; 6; 7]).
-Proof. vm_compute. reflexivity. Qed.
+  (* worker thread on PU 3, main thread on 0-15, RESTRICT_TO_CPUBINDING: 16 PUs visited, thread back on PU 3 *)
+  x86_look (bs_of_N 0xffff) true 16 (bs_of_N 8) (bs_of_N 0xffff) = (bs_of_N 8, [0;1;2;3;4;5;6;7;8;9;10;11;12;13;14;15]) /\
+  x86_look (bs_of_N 0xf0) false 8 (bs_of_N 0x30) bs_empty = (bs_of_N 0x30, [4; 5; 6; 7]).
+Proof. vm_compute. auto. Qed.
 
 (* ---- the Linux hooks (topology-linux.c) between bind.c and the kernel ----
    Called with a legal set - all that bind.c ever passes them (bind_only_legal_sets_reach_os) - every
